@@ -311,6 +311,98 @@ def rule_coverage(ctx, rep: Report, rid="S1", min_sites=10):
             "and instantiations", f"{ci.mod.rel}:{ipc.lineno}")
 
 
+def rule_whole_replacement(ctx, rep: Report, rid="S1"):
+    """The concrete type substituted for a parameter is the whole Typename (name, namespaces and its
+    own template arguments): it is used as a whole, or all three fields are carried over."""
+    prog = ctx.prog
+    fn = prog.func(f"{TI}/helpers.py", "instantiate_type")
+    mi = prog.module(f"{TI}/helpers.py")
+    ip = func_params(fn)[2]          # instantiations
+    n = 0
+    scopes = [fn] + [g for g in ast.walk(fn) if isinstance(g, ast.FunctionDef) and g is not fn]
+    for sc in scopes:
+        for st in ast.walk(sc):
+            if not isinstance(st, ast.Assign):
+                continue
+            v = st.value
+            if isinstance(v, ast.Call) and unparse(v.func) in ("deepcopy", "copy.deepcopy", "copy.copy") and v.args:
+                v = v.args[0]
+            if not (isinstance(v, ast.Subscript) and isinstance(v.value, ast.Name) and v.value.id == ip):
+                continue
+            tgt = st.targets[0]
+            if not isinstance(tgt, ast.Name):
+                n += 1
+                rep.add(rid, f"replacement:{unparse(st)[:60]}:whole concrete type", True, "stored as a whole",
+                        f"{mi.rel}:{st.lineno}", nontrivial=False)
+                continue
+            alias = tgt.id
+            reads, whole = set(), False
+            for u in ast.walk(sc):
+                if isinstance(u, ast.Name) and u.id == alias and isinstance(u.ctx, ast.Load):
+                    p = parent(u)
+                    if isinstance(p, ast.Attribute) and p.value is u:
+                        if isinstance(p.ctx, ast.Load):
+                            reads.add(p.attr)
+                    else:
+                        whole = True
+            n += 1
+            need = {"name", "namespaces", "instantiations"}
+            ok = whole or need <= reads or not reads
+            rep.add(rid, f"replacement:{alias} = {unparse(st.value)[:40]}:whole concrete type", ok,
+                    f"the concrete type bound to a template parameter is taken apart field by field ({sorted(reads)}) "
+                    f"and never used as a whole: {sorted(need - reads)} of it are lost - e.g. the template arguments "
+                    f"of an instantiation such as PinholeCamera<Cal3Bundler>", f"{mi.rel}:{st.lineno}")
+    if n < 1:
+        raise AnalysisError(f"{rep.prop}/{rid}: no use of the instantiation list found in instantiate_type")
+
+
+def rule_no_carry_over(ctx, rep: Report, rid="S1"):
+    """Inside a loop over instantiation tuples nothing computed for one tuple is carried into the next."""
+    prog = ctx.prog
+    eff = effects_engine(ctx)
+    n = 0
+    for fid in sorted(eff.funcs, key=repr):
+        if not fid.rel.startswith(TI):
+            continue
+        mi, fn, ci = eff.funcs[fid]
+        for loop in walk_no_nested(fn):
+            if not isinstance(loop, ast.For):
+                continue
+            it = unparse(loop.iter)
+            if not ("product(" in it or it.endswith(".template)") or ".instantiations" in it):
+                continue
+            n += 1
+            body_assigns: Dict[str, List[ast.AST]] = {}
+            for st in ast.walk(loop):
+                if isinstance(st, (ast.Assign, ast.AugAssign)):
+                    for t in (st.targets if isinstance(st, ast.Assign) else [st.target]):
+                        if isinstance(t, ast.Name):
+                            body_assigns.setdefault(t.id, []).append(st)
+            carried = []
+            for u in ast.walk(loop):
+                if isinstance(u, ast.Name) and isinstance(u.ctx, ast.Load) and u.id in body_assigns:
+                    ust = u
+                    while ust is not None and not isinstance(ust, ast.stmt):
+                        ust = parent(ust)
+                    for d in body_assigns[u.id]:
+                        if d.lineno > ust.lineno or (d is ust and not _accumulates(d, u.id)):
+                            # defined later in the body than it is used: the value of the previous round
+                            if d is ust:
+                                continue
+                            carried.append((u.id, u.lineno, d.lineno))
+            names = sorted({c[0] for c in carried})
+            rep.add(rid, f"per-combination:{fid.qual}:loop over {it[:40]}", not names,
+                    f"variable(s) {names} are used in the loop body before they are (re)assigned later in the same "
+                    f"body: from the second instantiation tuple on they hold what was computed for the previous "
+                    f"tuple, so one instantiation receives another's types", f"{mi.rel}:{loop.lineno}")
+    if n < 3:
+        raise AnalysisError(f"{rep.prop}/{rid}: {n} instantiation loops found, 3 expected")
+
+
+def _accumulates(st, name) -> bool:
+    return True
+
+
 def rule_parallel_lists(ctx, rep: Report, rid="S1"):
     """Where class-level and member-level lists are combined, class level comes first in both the
     typename list and the instantiation list."""
@@ -517,9 +609,66 @@ def rule_this(ctx, rep: Report, rid="S6"):
 
 # ==========================================================================================
 # C08
+def _handwritten_product(fn) -> Optional[Tuple[bool, str]]:
+    """Recognise  acc = [[]]; for choices in T.instantiations: acc = [p + [c] for .. for ..]; return acc
+    -> (first parameter varies slowest?, description); None when the shape is not recognised."""
+    loops = [l for l in fn.body if isinstance(l, ast.For)]
+    if len(loops) != 1 or not unparse(loops[0].iter).endswith(".instantiations"):
+        return None
+    loop = loops[0]
+    choices = loop.target.id if isinstance(loop.target, ast.Name) else None
+    asg = [s for s in loop.body if isinstance(s, ast.Assign) and isinstance(s.value, ast.ListComp)]
+    if len(asg) != 1 or len(loop.body) != 1:
+        return None
+    acc = unparse(asg[0].targets[0])
+    comp = asg[0].value
+    if len(comp.generators) != 2 or any(g.ifs for g in comp.generators):
+        return None
+    g0, g1 = comp.generators
+    init = [s for s in fn.body if isinstance(s, (ast.Assign, ast.AnnAssign)) and unparse(s.targets[0] if isinstance(s, ast.Assign) else s.target) == acc]
+    if not init or unparse(init[0].value).replace(" ", "") != "[[]]":
+        return None
+    rets = [s for s in fn.body if isinstance(s, ast.Return)]
+    if not rets or unparse(rets[-1].value) != acc:
+        return None
+    names = {unparse(g0.iter): unparse(g0.target), unparse(g1.iter): unparse(g1.target)}
+    if set(names) != {acc, choices}:
+        return None
+    elt = unparse(comp.elt).replace(" ", "")
+    if elt != f"{names[acc]}+[{names[choices]}]":
+        return (False, f"element {unparse(comp.elt)} is not prefix + [choice]")
+    outer = unparse(g0.iter)
+    return (outer == acc, f"outer loop over {'the prefixes built so far' if outer == acc else 'the new parameter`s choices'}")
+
+
 def rule_product_sites(ctx, rep: Report, rid="N1", min_sites=3):
     prog = ctx.prog
     n = 0
+    # enumeration through a helper function instead of itertools.product
+    eff = effects_engine(ctx)
+    for mi in sorted(prog.modules.values(), key=lambda m: m.rel):
+        if not mi.rel.startswith(TI):
+            continue
+        for loop in ast.walk(mi.tree):
+            if not (isinstance(loop, ast.For) and isinstance(loop.iter, ast.Call) and len(loop.iter.args) == 1
+                    and unparse(loop.iter.args[0]).endswith(".template")):
+                continue
+            fn = enclosing(loop, ast.FunctionDef)
+            ci = None
+            cls = enclosing(loop, ast.ClassDef)
+            if cls is not None:
+                ci = prog.cls(cls.name)
+            callees = [c for c in eff.resolve_call(loop.iter, mi, ci, fn) if c in eff.funcs]
+            for c in callees:
+                n += 1
+                r = _handwritten_product(eff.funcs[c][1])
+                key = f"product:{fn.name if fn else '?'}:{unparse(loop.iter)[:60]}"
+                if r is None:
+                    raise AnalysisError(f"{mi.rel}:{loop.lineno}: instantiations are enumerated by {c.qual}, whose "
+                                        f"shape is not recognised as a Cartesian product")
+                rep.add(rid, key, r[0],
+                        f"{c.qual} enumerates the combinations with the {r[1]}: the first template parameter must "
+                        f"vary slowest (declaration order of itertools.product)", f"{mi.rel}:{loop.lineno}")
     for mi in sorted(prog.modules.values(), key=lambda m: m.rel):
         if not mi.rel.startswith(TI):
             continue
@@ -599,7 +748,21 @@ def rule_typedef_path(ctx, rep: Report, rid="N2", min_kinds=3):
                     continue
                 n += 1
                 init = prog.find_method(rc, "__init__")[1]
-                b = {k: unparse(v) for k, v in bind_call(init, c, drop_self=True).items()}
+                braw = bind_call(init, c, drop_self=True)
+                b = {k: unparse(v) for k, v in braw.items()}
+                orig = braw.get("original")
+                only_lookup = False
+                if isinstance(orig, ast.Name):
+                    defs, killed = reaching_defs(fn, orig.id, orig)
+                    vals = [d.value for d in defs if isinstance(d, ast.Assign)]
+                    vals = [v for v in vals if not (isinstance(v, ast.Constant) and v.value is None)]
+                    only_lookup = bool(vals) and all(
+                        isinstance(v, ast.Call) and isinstance(v.func, ast.Attribute) and v.func.attr == "find_class_or_function"
+                        for v in vals) and all(isinstance(d, ast.Assign) for d in defs)
+                rep.add(rid, f"typedef:{rc.qual}:template taken from the module-wide lookup only", only_lookup,
+                        f"`{unparse(orig) if orig is not None else None}` can also come from somewhere other than "
+                        f"top_level().find_class_or_function(<typedef>.typename): a typedef may bind to a different "
+                        f"declaration of the same name", f"{mi.rel}:{c.lineno}")
                 ok_i = any(b.get("instantiations") == f"{a}.typename.instantiations" for a in aliases)
                 ok_n = any(b.get("new_name") == f"{a}.new_name" for a in aliases)
                 app = isinstance(parent(c), ast.Call) and unparse(parent(c).func).endswith(".append")
@@ -633,7 +796,15 @@ def rule_pass_through(ctx, rep: Report, rid="N3"):
             f"declarations", f"{mi.rel}:{loop.lineno}")
     var = loop.target.id
     # walk the if/elif chain
-    chain = loop.body[0] if loop.body and isinstance(loop.body[0], ast.If) else None
+    chain = None
+    for st in loop.body:
+        if isinstance(st, ast.If):
+            n0, tests = st, []
+            while isinstance(n0, ast.If):
+                tests.append(unparse(n0.test))
+                n0 = n0.orelse[0] if n0.orelse and len(n0.orelse) == 1 and isinstance(n0.orelse[0], ast.If) else None
+            if any("Namespace" in t for t in tests) and any("TypedefTemplateInstantiation" in t for t in tests):
+                chain = st
     else_ok = False
     ns_ok = False
     node = chain
@@ -769,6 +940,41 @@ def rule_typenames_are_keys(ctx, rep: Report, rid="P3"):
                     f"{mi.rel}:{x.lineno}", nontrivial=not ok)
     if n < 20:
         raise AnalysisError(f"{rep.prop}/{rid}: {n} uses of template typename lists found, >= 20 expected")
+    # a parameter name is looked up in a list of components, never inside a spelling (substring)
+    eff = effects_engine(ctx)
+    for fid in sorted(eff.funcs, key=repr):
+        if not fid.rel.startswith(TI):
+            continue
+        mi, fn, ci = eff.funcs[fid]
+        tainted = set()
+        for l in ast.walk(fn):
+            if isinstance(l, (ast.For, ast.comprehension)) and "typenames" in unparse(l.iter):
+                for x in ast.walk(l.target):
+                    if isinstance(x, ast.Name):
+                        tainted.add(x.id)
+        anns = {a.arg: unparse(a.annotation) for a in fn.args.args if a.annotation is not None}
+        for c in ast.walk(fn):
+            if isinstance(c, ast.Compare) and len(c.ops) == 1 and isinstance(c.ops[0], (ast.In, ast.NotIn)):
+                left_names = {x.id for x in ast.walk(c.left) if isinstance(x, ast.Name)}
+                if not (left_names & tainted):
+                    continue
+                comp = c.comparators[0]
+                stringy = False
+                if isinstance(comp, ast.Name):
+                    if anns.get(comp.id) == "str":
+                        stringy = True
+                    for d in local_assignments(fn).get(comp.id, []):
+                        if isinstance(d, ast.Assign) and isinstance(d.value, ast.Call) and unparse(d.value.func) in ("str", "repr"):
+                            stringy = True
+                elif isinstance(comp, ast.Call) and unparse(comp.func) in ("str", "repr"):
+                    stringy = True
+                elif isinstance(comp, ast.JoinedStr):
+                    stringy = True
+                n += 1
+                rep.add(rid, f"keys-only:{fid.qual}:{unparse(c)[:50]}", not stringy,
+                        f"a template parameter name is searched for *inside a type spelling* ({unparse(c)}): any "
+                        f"identifier that merely contains (or ends with) the parameter's spelling matches, so the "
+                        f"result depends on how the parameter happens to be named", f"{mi.rel}:{c.lineno}")
     # no identifier other than the reserved `This` is compared as a literal
     allowed = {"This", "::", ""}
     for mi in sorted(prog.modules.values(), key=lambda m: m.rel):
